@@ -42,17 +42,25 @@ THEOREMS = [
     "MjProof.Prog.abs_sound",
     "MjProof.Prog.frame_sound",
     "MjProof.C01.classification_covers_all_fields",
+    "MjProof.C01.cond_fields_classified",
     "MjProof.C01.state_groups_are_integration_state",
     "MjProof.C01.translator_refused_nothing",
     "MjProof.C01.all_stages_have_footprints",
+    "MjProof.C01.no_calls_left",
     "MjProof.C01.forward_inputs_subset_state",
     "MjProof.C01.step_inputs_subset_state",
     "MjProof.C01.inverse_inputs_subset_state_partial",
+    "MjProof.C01.inverse_reads_actuation",
+    "MjProof.C01.forward_sleep_inputs_partial",
+    "MjProof.C01.forward_determines_outputs",
+    "MjProof.C01.step_determines_state",
+    "MjProof.C01.inverse_determines_outputs",
     "MjProof.C01.run_noninterference",
     "MjProof.C01.forward_deterministic",
     "MjProof.C01.step_deterministic",
     "MjProof.C01.inverse_deterministic_partial",
-    "MjProof.C01.forward_sleep_inputs_partial",
+    "MjProof.C01.forward_after_copyState",
+    "MjProof.C01.step_after_copyState",
 ]
 
 HARNESS_SRC = "harness/c/c01_pipeline.c"
@@ -392,9 +400,10 @@ def validate_model(sc, rng, nstates=1):
 def make_receiver(sc, rng, kind, src, dst, I_groups, sig):
     """build in slot dst an mjData that holds the integration state of slot src; returns a description"""
     h = sc.h
+    keep = set(I_groups) | NEVER_POISON
     if kind == "copydata+poison":
         h.ok("copydata %d %d" % (dst, src))
-        pg = [g for g in sc.info.groups if g not in I_groups and g not in NEVER_POISON]
+        pg = [g for g in sc.info.groups if g not in keep]
         seed = rng.randrange(1 << 30)
         h.ok("poison %d %d %s $arena" % (dst, seed, " ".join(sc.fields(pg))))
         return {"kind": kind, "seed": seed}
@@ -413,7 +422,7 @@ def make_receiver(sc, rng, kind, src, dst, I_groups, sig):
         h.cmd("call %d step" % dst)
         h.ok("call %d resetData" % dst)
     elif kind.startswith("junk"):
-        pg = [g for g in sc.info.groups if g not in NEVER_POISON]
+        pg = [g for g in sc.info.groups if g not in keep]
         seed = rng.randrange(1 << 30)
         h.ok("poison %d %d %s $arena" % (dst, seed, " ".join(sc.fields(pg))))
         desc["seed"] = seed
@@ -426,27 +435,31 @@ def make_receiver(sc, rng, kind, src, dst, I_groups, sig):
 
 RECEIVERS = ("copydata+poison", "fresh+copystate", "fresh+setstate", "reset+copystate", "used+copystate", "used+setstate",
              "junk+copystate")
+ENTRY_PROG = {"forward": "mj_forward", "step": "mj_step", "inverse": "mj_inverse"}
 
 
 def differential(sc, rng, entry, receiver, sig, nsteps=1, src=0, dst=3):
-    """run `entry` on slot src and on a receiver holding the same integration state; compare the claimed groups.
-    Returns None or a failure dict."""
+    """run `entry` on slot src and on a receiver holding the same inputs; compare the groups the Lean analysis claims.
+    The inputs are exactly the analysed read-before-write set (proved ⊆ state ∪ rest [∪ qacc, actuation for inverse]):
+    groups of that set that the state API does not transfer are copied field by field.  Returns None or a failure."""
     h, info = sc.h, sc.info
     integ = integrator_of(sc.mdl)
-    an = info.analyze({"forward": "mj_forward", "step": "mj_step", "inverse": "mj_inverse"}[entry], sc.sleeping,
-                      integ if entry == "step" else "-")
-    state = set(f["field"] for f in sc.state_fields)
-    state_groups = set(g for f in state for g in info.classify[f])
-    I = set(state_groups) | {"memc", "stack"}
-    if entry == "inverse":
-        I |= {"qacc"}
+    an = info.analyze(ENTRY_PROG[entry], sc.sleeping, integ if entry == "step" else "-")
+    state_groups = set(g for f in sc.state_fields for g in info.classify[f["field"]])
+    I = set(an["rbw"]) | state_groups
     desc = make_receiver(sc, rng, receiver, src, dst, I, sig)
-    if entry == "inverse" and receiver != "copydata+poison":
-        q = h.cmd("get %d qacc" % src).split(":", 1)[1].split()
-        if q:
-            h.ok("set %d qacc %s" % (dst, " ".join("x" + x for x in q)))
+    extra_in = [g for g in I if g not in state_groups and g not in NEVER_POISON and g != "sleep"]
+    if receiver != "copydata+poison":
+        for f in sc.fields(extra_in):
+            v = h.cmd("get %d %s" % (src, f)).split(":", 1)[1].split()
+            if v:
+                ty = "x" if all(len(x) == 16 for x in v) else ""
+                h.ok("set %d %s %s" % (dst, f, " ".join(ty + x for x in v)))
+        desc["copied_inputs"] = extra_in
     claimed = [g for g in set(an["killN"] or []) | state_groups if g not in NEVER_COMPARE]
-    call = {"forward": "forward", "step": "step", "inverse": "inverse"}[entry]
+    if sc.sleeping:
+        claimed = [g for g in info.groups if g not in NEVER_COMPARE and g != "iscratch"]
+    call = entry
     for i in range(nsteps):
         r1 = h.cmd("call %d %s" % (src, call))
         r2 = h.cmd("call %d %s" % (dst, call))
